@@ -10,6 +10,18 @@ func init() {
 	prop("C06", []string{"R-SHARED", "R-NOGO"},
 		"no unsynchronised write to memory reachable from the shared compiled Regex/Engine (or a package variable) on any path from any search, enumeration or replace method, over all strategies (R-SHARED); no goroutine is started on a search path (R-NOGO).",
 		"that every call returns its sequential result beyond the absence of shared writes; races inside the Go runtime/stdlib; Stats()/ResetStats() (documented unsafe, not search methods).")
+	prop("C05", []string{"R-RECURSION", "R-EPOCH"},
+		"every search-time recursion (call-graph cycle reachable from a search root) is guarded by a visited test-and-set gate on every path to the recursive call (R-RECURSION); the visited epoch of the backtracker is never advanced inside a start-position loop that calls the gated recursion, and every advance handles wrap-around (R-EPOCH).",
+		"the constant K and every value-dependent loop count (candidate loops of the reverse strategies, prefilter rescans); polynomial compile time. This is the weakest claim relative to the property: it decides two necessary conditions of the visited-table bound only.")
+	prop("C13", []string{"R-RESET", "R-EPOCH", "R-ENTRYCLEAR", "R-POOL", "R-SHARED"},
+		"every clearing method of a per-search cache resets every memo field its siblings populate (R-RESET); visited-epoch wrap handling (R-EPOCH a); every NFA-simulation driver clears its visited set and truncates its thread queues before first use on every path (R-ENTRYCLEAR); pooled state is handed back exactly once and not used afterwards (R-POOL); no shared scratch carries history between calls (R-SHARED).",
+		"that stale values in reused-but-not-cleared buffers are never read (value-level); GC interaction with sync.Pool; adaptive prefilter trackers.")
+	prop("C14", []string{"R-RESET"},
+		"cache clearing is complete: no transition/state memo of the lazy DFA cache survives Clear/ClearKeepMemory/Reset with recycled state ids (R-RESET), a necessary condition of 'exact under every cache capacity'.",
+		"correctness of determinisation, reverse NFA construction, one-pass ambiguity test, look-around handling: the engines' agreement with the reference is value-level and declined.")
+	prop("C20", []string{"R-POOL"},
+		"per-search state obtained from the pools is handed back on every path to return (R-POOL a): a leaked state is re-created by Pool.New on every call, so the documented zero-allocation calls would allocate in steady state.",
+		"the numeric bounds (cache capacity + one state, visited cap), heap held per Regex, allocation under cache churn.")
 	prop("C07", []string{"R-RO", "R-ASMSTORE"},
 		"no write reachable from a search root targets the caller's haystack/pattern/template bytes, including strings viewed as []byte (R-RO); every memory-destination instruction of the assembly kernels writes only its own frame, a result slot or a designated non-byte output buffer (R-ASMSTORE).",
 		"over-reads of the vector kernels, implicit panics (index/nil), stack exhaustion, well-formedness of returned spans (value-level).")
